@@ -4,11 +4,13 @@ import (
 	"errors"
 	"expvar"
 	"fmt"
+	"github.com/golang-jwt/jwt/v4"
 	"io"
 	"log"
 	"net/http"
 	"net/http/httptest"
 	"net/url"
+	"path"
 	"sort"
 	"strings"
 	"testing"
@@ -247,6 +249,39 @@ type HTTPCase struct {
 	DB     string // for /write
 }
 
+// bearerTokens: JSON web tokens for the user "user", signed with the handler's shared secret unless stated
+var bearerCache map[string]string
+
+func bearerTokens() map[string]string {
+	if bearerCache != nil {
+		return bearerCache
+	}
+	sign := func(claims jwt.MapClaims, secret string) string {
+		tok, err := jwt.NewWithClaims(jwt.SigningMethodHS256, claims).SignedString([]byte(secret))
+		if err != nil {
+			panic(err)
+		}
+		return tok
+	}
+	far := float64(time.Now().Add(100 * 365 * 24 * time.Hour).Unix())
+	past := float64(time.Now().Add(-time.Hour).Unix())
+	none, _ := jwt.NewWithClaims(jwt.SigningMethodNone, jwt.MapClaims{"username": "user", "exp": far}).SignedString(jwt.UnsafeAllowNoneSignatureType)
+	bearerCache = map[string]string{
+		"jwt-ok":            sign(jwt.MapClaims{"username": "user", "exp": far}, "secret"),
+		"jwt-no-exp":        sign(jwt.MapClaims{"username": "user"}, "secret"),
+		"jwt-exp-zero":      sign(jwt.MapClaims{"username": "user", "exp": 0}, "secret"),
+		"jwt-exp-string":    sign(jwt.MapClaims{"username": "user", "exp": "never"}, "secret"),
+		"jwt-only-iat":      sign(jwt.MapClaims{"username": "user", "iat": past}, "secret"),
+		"jwt-expired":       sign(jwt.MapClaims{"username": "user", "exp": past}, "secret"),
+		"jwt-wrong-secret":  sign(jwt.MapClaims{"username": "user", "exp": far}, "other"),
+		"jwt-alg-none":      none,
+		"jwt-no-username":   sign(jwt.MapClaims{"exp": far}, "secret"),
+		"jwt-unknown-user":  sign(jwt.MapClaims{"username": "nobody", "exp": far}, "secret"),
+		"jwt-username-list": sign(jwt.MapClaims{"username": []string{"user"}, "exp": far}, "secret"),
+	}
+	return bearerCache
+}
+
 func methodPriv(m string) (string, bool) {
 	switch m {
 	case "HEAD", "OPTIONS":
@@ -285,6 +320,9 @@ func (e *httpEnv) do(c HTTPCase) (status int, ran, ranURL string, wrote []string
 	}
 	req.URL = u
 	req.RequestURI = target
+	if tok, ok := bearerTokens()[c.User]; ok {
+		req.Header.Set("Authorization", "Bearer "+tok)
+	}
 	switch c.User {
 	case "badpw":
 		req.SetBasicAuth("user", "wrong")
@@ -307,13 +345,13 @@ func (e *httpEnv) checkHTTP(c HTTPCase) (kind, msg string, interesting bool) {
 	if status == -1 {
 		return "", "", false
 	}
-	credsOK := c.User == "user" || c.User == "admin"
+	credsOK := c.User == "user" || c.User == "admin" || c.User == "jwt-ok"
 	if ran != "" {
 		interesting = true
 		if !credsOK {
 			return "served-without-credentials", fmt.Sprintf("route %q ran (status %d) for a request without valid credentials: %+v", ran, status, c), true
 		}
-		if c.User == "user" {
+		if c.User == "user" || c.User == "jwt-ok" {
 			priv, ok := methodPriv(c.Method)
 			if !ok {
 				return "served-unknown-method", fmt.Sprintf("route %q ran for unknown method: %+v", ran, c), true
@@ -323,6 +361,18 @@ func (e *httpEnv) checkHTTP(c HTTPCase) (kind, msg string, interesting bool) {
 			allowed, _ := refAllowed(c.Table, "/api/"+rel, priv)
 			if !allowed {
 				return "served-without-privilege", fmt.Sprintf("route %q ran on path %q (request path %q) although the nearest grant does not give %q: table %+v", ran, ranURL, c.Path, priv, c.Table), true
+			}
+			// and, independently of what the handler was told: the canonical form of the path that was REQUESTED
+			// decides the resource (a path served in place without a redirect must not be authorised as something else)
+			canon := path.Clean(c.Path)
+			for _, base := range []string{httpd.BasePreviewPath, httpd.BasePath} {
+				if strings.HasPrefix(canon, base) {
+					rel2 := strings.TrimPrefix(canon, base)
+					if a2, _ := refAllowed(c.Table, "/api"+rel2, priv); !a2 {
+						return "served-noncanonical-path-without-privilege", fmt.Sprintf("route %q ran for request path %q (canonical %q) although the nearest grant for /api%s does not give %q: table %+v", ran, c.Path, canon, rel2, priv, c.Table), true
+					}
+					break
+				}
 			}
 		}
 	}
@@ -399,6 +449,7 @@ type Replay struct {
 	HTTP  *HTTPCase
 	DB1   string
 	DB2   string
+	Auth  []AuthOp `json:",omitempty"`
 }
 
 func checkDirect(t table, u auth.User, res, priv string) (string, string) {
@@ -416,7 +467,7 @@ func checkDirect(t table, u auth.User, res, priv string) (string, string) {
 
 func TestCheck(t *testing.T) {
 	r := rep.New("C20", "model_checking",
-		"authorisation: (1) every privilege table with up to N grants (7 privilege masks) over the 16 resources /, /api, /api/{a,b}^{1..3} x every request resource built from <= 4 segments of {a,b,.,..,''} with/without trailing slash x every privilege, decided by auth.User.AuthorizeAction and by a reference 'nearest ancestor-or-self grant decides alone' on an independently normalised path; (2) the same through httpd.Handler.ServeHTTP with a fake auth service, marker routes (which handler ran, on which path) and a recording points writer: methods x users {none, bad password, valid, admin} x paths under /kapacitor/v1 and /kapacitor/v1preview x /write with database names; (3) DatabaseResource injectivity over a database-name alphabet. states = distinct (table, resource) pairs; transitions = decisions; non-trivial = decisions where some grant lies on the ancestor chain of the request")
+		"authorisation: (1) every privilege table with up to N grants (7 privilege masks) over the 16 resources /, /api, /api/{a,b}^{1..3} x every request resource built from <= 4 segments of {a,b,.,..,''} with/without trailing slash x every privilege, decided by auth.User.AuthorizeAction and by a reference 'nearest ancestor-or-self grant decides alone' on an independently normalised path; (2) the same through httpd.Handler.ServeHTTP with a fake auth service, marker routes (which handler ran, on which path) and a recording points writer: methods x users {none, bad password, valid, admin} (+ 11 bearer-token shapes: no/zero/string/past expiry, wrong secret, alg none, no/unknown/non-string username) x paths under /kapacitor/v1 and /kapacitor/v1preview x /write with database names; (3) DatabaseResource injectivity over a database-name alphabet; (4) subscription tokens on the real services/auth service with its user cache over a real Bolt store: every history of 5 (thorough 6) grant/use/revoke operations on two tokens, a token authenticates exactly while it is granted. states = distinct (table, resource) pairs; transitions = decisions; non-trivial = decisions where some grant lies on the ancestor chain of the request")
 	defer r.Write()
 	r.Assumption("a grant that mixes 'all' with other privileges is denied by the implementation for privileges not listed; the statement is 'only if', so this narrower behaviour is tolerated")
 	r.Assumption("JWT bearer and subscription-token authentication are not enumerated (basic auth only)")
@@ -429,6 +480,10 @@ func TestCheck(t *testing.T) {
 		switch rp.Kind {
 		case "direct":
 			if k, m := checkDirect(rp.Table, rp.Table.user("user"), rp.Res, rp.Priv); k != "" {
+				r.Violation(k, m, rp)
+			}
+		case "auth":
+			if k, m := runAuthHistory(rp.Auth); k != "" {
 				r.Violation(k, m, rp)
 			}
 		case "http":
@@ -536,6 +591,7 @@ func TestCheck(t *testing.T) {
 	if rep.Thorough() {
 		hg, hseg = 2, 4
 	}
+	authPart(r)
 	hpaths := requestPaths(hseg)
 	n = 0
 	tables(httpRes, hg, func(tb table) {
@@ -547,10 +603,24 @@ func TestCheck(t *testing.T) {
 			r.Cap("deadline")
 			return
 		}
+		for kind := range bearerTokens() {
+			for _, m := range []string{"GET", "POST", "DELETE"} {
+				c := HTTPCase{Table: tb, User: kind, Method: m, Path: httpd.BasePath + "/a", DB: "\x00"}
+				k, msg, _ := e.checkHTTP(httpCaseResolved(c))
+				r.Add("evaluations", 1)
+				r.Add("transitions", 1)
+				if k != "" {
+					r.Violation(k+":"+kind, msg, Replay{Kind: "http", HTTP: &c})
+				}
+			}
+		}
 		for _, user := range []string{"", "badpw", "user", "admin"} {
 			for _, m := range methods {
-				for _, prefix := range []string{httpd.BasePath, httpd.BasePreviewPath} {
+				for pi, prefix := range []string{httpd.BasePath, httpd.BasePreviewPath, "/" + httpd.BasePath, "/kapacitor//v1", "/." + httpd.BasePath, "/x/.." + httpd.BasePath} {
 					for _, p := range hpaths {
+						if pi >= 2 && strings.Count(p, "/") > 2 {
+							continue // tricks in front of the base path: short paths only
+						}
 						c := HTTPCase{Table: tb, User: user, Method: m, Path: prefix + p, DB: "\x00"}
 						k, msg, intr := e.checkHTTP(httpCaseResolved(c))
 						r.Add("evaluations", 1)
